@@ -88,21 +88,14 @@ class EvalNode(ConfigScalar(str)):
         code_hash = hashlib.md5(str(self).encode('utf-8')).hexdigest()
         eval_module_name = f'{EvalNode._top_namespace_module_name}.{str(path).replace(".", "_")}_0x{code_hash}'
 
-        from_module = False
-        if self.persistent_namespace and eval_module_name in sys.modules:
-            gbls = sys.modules[eval_module_name].__dict__
-            from_module = True
-        else:
-            gbls = {
-                'ayns': Bunch({
-                    'ctx': ctx,
-                    'cfg': ctx.ecfg
-                })
-            }
-            gbls.update(ctx.get_eval_symbols())
-            gbls.update({ '__name__': eval_module_name, '__file__': self._source_file })
-
-        module_gbls = gbls
+        gbls = {
+            'ayns': Bunch({
+                'ctx': ctx,
+                'cfg': ctx.ecfg
+            })
+        }
+        gbls.update(ctx.get_eval_symbols())
+        gbls.update({ '__name__': eval_module_name, '__file__': self._source_file })
         gbls = EvalGlobals(gbls, ctx.ecfg, ctx, self, path)
 
         lines = self.strip().split('\n')
@@ -127,9 +120,7 @@ class EvalNode(ConfigScalar(str)):
             code = f'=== CODE BEGINS ===\n{os.linesep.join(lines)}\n=== CODE ENDS ==='
             raise EvalError('The above exception occurred in the user code.', self, path, note=code) from e
 
-        if from_module:
-            module_gbls.update(gbls)
-        elif len(lines) > 1 and self.persistent_namespace:
+        if len(lines) > 1 and self.persistent_namespace:
             eval_node_module = types.ModuleType(eval_module_name, 'Dynamic module to evaluate awesomeyaml !eval node')
             eval_node_module.__dict__.update(gbls)
             sys.modules[eval_module_name] = eval_node_module
